@@ -386,7 +386,7 @@ struct Exec {
         }
         if (!op.exp_nreqs.empty() && r < (int)op.exp_nreqs.size()) {
             int n = -1; if (ncmpi_inq_nreqs(ncid, &n) == NC_NOERR && n != op.exp_nreqs[r]) fail("nreqs", opi, "ncmpi_inq_nreqs reports " + std::to_string(n) + " pending requests, model has " + std::to_string(op.exp_nreqs[r]));
-            if (op.exp_usage[r] >= 0) { MPI_Offset u = -1; if (ncmpi_inq_buffer_usage(ncid, &u) == NC_NOERR && u != op.exp_usage[r]) fail("abuf-usage", opi, "ncmpi_inq_buffer_usage reports " + std::to_string((long long)u) + " bytes, pending buffered puts hold " + std::to_string(op.exp_usage[r])); }
+            if (c.o.check_usage && op.exp_usage[r] >= 0) { MPI_Offset u = -1; if (ncmpi_inq_buffer_usage(ncid, &u) == NC_NOERR && u != op.exp_usage[r]) fail("abuf-usage", opi, "ncmpi_inq_buffer_usage reports " + std::to_string((long long)u) + " bytes, pending buffered puts hold " + std::to_string(op.exp_usage[r]) + ((r < (int)op.exp_usage_tail.size() && u == op.exp_usage_tail[r]) ? " (tail-only-reclaim: the excess is exactly the space of completed/cancelled entries allocated before a still pending one)" : "")); }
         }
     }
     void drop_reqs(int file) { for (auto &q : me.reqs[file]) { if (q.ub) free_buf(*q.ub); q = PendingReq(); } }
